@@ -504,12 +504,16 @@ pub fn gen_plan(rng: &mut Rng, k: &HistKnobs) -> HistPlan {
         // in half of these plans the clients even work on identical texts: in lock-step they then
         // touch the same (possibly not yet initialised) parts of a shared predictor at the same
         // moment, and every client must still get the serial result
+        // ... for their FIRST text only: later segments get texts of their own again, because
+        // other defects need concurrent calls on inputs of *different* length
         let identical = rng.chance(1, 2);
+        let mut seen_first = false;
         for c in clients.iter_mut().skip(1) {
+            seen_first = false;
             *c = shape
                 .iter()
                 .map(|op| match op {
-                    Op::UpdateRaw { .. } if identical => op.clone(),
+                    Op::UpdateRaw { .. } if identical && !std::mem::replace(&mut seen_first, true) => op.clone(),
                     Op::UpdateRaw { owned, .. } => {
                         let n = rng.range(1, k.max_text);
                         Op::UpdateRaw { s: thread_text(rng, n), owned: *owned }
